@@ -391,6 +391,7 @@ def spec_on_impl(ctx: Ctx, run: Run, verdict: str) -> None:
     boxes = [bb(r) for r in allr]
     scale = max(W, H)
     fuzz = scale / 10 ** 12
+    afuzz = scale * scale / 10 ** 12       # float rounding of the implementation's own area arithmetic
     # inside the die (within the distance tolerance)
     for r, (x0, y0, x1, y1) in zip(allr, boxes):
         if not (x0 >= -e_die - fuzz and y0 >= -e_die - fuzz and x1 <= W + e_die + fuzz and y1 <= H + e_die + fuzz):
@@ -408,11 +409,11 @@ def spec_on_impl(ctx: Ctx, run: Run, verdict: str) -> None:
             dy = min(a[3], b[3]) - max(a[1], b[1])
             ov = dx * dy if dx > 0 and dy > 0 else Fr(0)
             worst = max(worst, ov)
-            if ov > e_a * (1 + Fr(1, 10 ** 6)) + fuzz * fuzz:
+            if ov > e_a * (1 + Fr(1, 10 ** 6)) + afuzz:
                 ctx.spec_fail("die_sound:disjoint", case, {"i": i, "j": j, "overlap": float(ov), "epsA": float(e_a)}, size)
                 return
     tot = sum(((x1 - x0) * (y1 - y0) for (x0, y0, x1, y1) in boxes), Fr(0))
-    if not abs(tot - W * H) < e_die * scale * (1 + Fr(1, 10 ** 6)) + fuzz * fuzz:
+    if not abs(tot - W * H) < e_die * scale * (1 + Fr(1, 10 ** 6)) + afuzz:
         ctx.spec_fail("die_sound:area-sum", case, {"sum": float(tot), "die": float(W * H)}, size)
         return
     # input regions reported unchanged, with their tags, in document order; ground rectangles tagged ground
@@ -833,7 +834,7 @@ def run(ctx: Ctx) -> None:
     rng = ctx.rng
     quick = ctx.tier == "quick"
     cases = corpus("Q") + corpus("F")
-    n = ctx.n(700, 20000)
+    n = ctx.n(2000, 20000)
     max_cells, max_regions = (6, 8) if quick else (10, 20)
     for i in range(n):
         mode = "Q" if i % 2 == 0 else "F"
